@@ -48,6 +48,13 @@ Definition code_lists : list (string * list bytes) :=
     ("isMonth"%string,
        [bs "01"; bs "02"; bs "03"; bs "04"; bs "05"; bs "06"; bs "07"; bs "08"; bs "09"; bs "10"; bs "11"; bs "12"]) ].
 
+(* coded elements that the tag files check against a table of their own rather than through a validator:
+   the identification code of the four financial-institution tags ({4000} {4100} {5100} {5200}): B C D F U *)
+Definition tag_code_lists : list (string * nat * list bytes) :=
+  let fi := [bs "B"; bs "C"; bs "D"; bs "F"; bs "U"] in
+  [ ("BeneficiaryIntermediaryFI"%string, 0, fi); ("BeneficiaryFI"%string, 0, fi);
+    ("OriginatorFI"%string, 0, fi); ("InstructingFI"%string, 0, fi) ].
+
 (* CCYYMMDD: eight digits, century 20-29, month 01-12, a day that exists in the month
    (February has 29 days in every year, as the FAIM edit does not look at the year) *)
 Definition dig (b : byte) : nat := N.to_nat (bN b - 48).
